@@ -52,6 +52,27 @@ package seccomp
 //@   ensures endJump(p0, a, b) && ((a != l && !has(p0.labels, a)) || (b != l && !has(p0.labels, b)) || (a != l && b != l)) ==> hopeKeep(p0, l)
 //@ lemma pendExt(p0 Program)
 //@   ensures forallk(S, "(Array Int Bool)", forallk(T, "(Array Int Bool)", pendIn(p0, S) && forallk(l, p0.labels, S[l] ==> T[l]) ==> pendIn(p0, T)))
+// the same fact at explicit sets (used by the callers, whose pending sets are ground terms)
+//@ lemma pendMono(p0 Program, S LabelSet, T LabelSet)
+//@   ensures pendIn(p0, S) && forallk(l, p0.labels, S[l] ==> T[l]) ==> pendIn(p0, T)
+// a program without conditional jumps has the structure trivially
+//@ lemma neEmpty(p0 Program, S LabelSet)
+//@   ensures len(p0.jumps) == 0 ==> ne(p0) && pendIn(p0, S) && noJumpAtEnd(p0)
+// endBelow(I, J, m): the jump at the end of the program (if any) refers to labels below m only
+//@ lemma endBelowJump(p0 Program, a int, b int, m int)
+//@   ensures endJump(p0, a, b) && a < m && b < m ==> endBelow(p0.instructions, p0.jumps, m)
+//@ lemma endBelowNone(p0 Program, m int)
+//@   ensures noJumpAtEnd(p0) ==> endBelow(p0.instructions, p0.jumps, m)
+//@ lemma hopeKeepBelow(p0 Program, l int)
+//@   ensures endBelow(p0.instructions, p0.jumps, l) ==> hopeKeep(p0, l)
+//@ lemma endBelowMono(p0 Program, m int, m2 int)
+//@   ensures endBelow(p0.instructions, p0.jumps, m) && m <= m2 ==> endBelow(p0.instructions, p0.jumps, m2)
+// ground label sets: the labels that may still be without a position between two builder calls of the compile path
+//@ macro ls1(a) = store(emptyLabels, a, true)
+//@ macro ls2(a, b) = store(store(emptyLabels, a, true), b, true)
+//@ macro ls3(a, b, c) = store(store(store(emptyLabels, a, true), b, true), c, true)
+//@ macro ls4(a, b, c, d) = store(store(store(store(emptyLabels, a, true), b, true), c, true), d, true)
+//@ macro eb(p) = endBelow(p.instructions, p.jumps, p.nextLabel + 1)
 // the ghost interpreter state describes the outcome of the label-level program built so far (spec/47_prefix.smt2)
 //@ macro phi(p) = relG(p.G, p.labels, runP3(p.instructions, p.jumps, p.labels, 0, A0))
 
@@ -81,8 +102,8 @@ package seccomp
 //@   use riLink(*p) at exit
 //@   ensures @riS {C06} riS(old(*p)) ==> riS(*p)
 //@   ensures @unplaced {C06} riS(old(*p)) ==> !has(p.labels, result)
-//@   ensures @ne {C07} (ne(old(*p)) ==> ne(*p)) && (noJumpAtEnd(old(*p)) ==> noJumpAtEnd(*p)) && forallk(a, p.labels, forallk(b, p.labels, endJump(old(*p), a, b) ==> endJump(*p, a, b)))
-//@   ensures @pend {C07} forallk(S, "(Array Int Bool)", pendIn(old(*p), S) ==> pendIn(*p, S))
+//@   ensures @ne {C07!} (ne(old(*p)) ==> ne(*p)) && (noJumpAtEnd(old(*p)) ==> noJumpAtEnd(*p)) && forallk(a, p.labels, forallk(b, p.labels, endJump(old(*p), a, b) ==> endJump(*p, a, b)))
+//@   ensures @pend {C07!} forallk(S, "(Array Int Bool)", pendIn(old(*p), S) ==> pendIn(*p, S))
 
 //@ func (p *Program) currentIndex() Index   properties C06
 //@   deterministic C13
@@ -107,9 +128,9 @@ package seccomp
 //@   use riLink(old(*p)) at exit
 //@   use riLink(*p) at exit
 //@   ensures @riS {C06} riS(old(*p)) ==> riS(*p)
-//@   ensures @ne {C07} riS(old(*p)) && ne(old(*p)) && !has(old(p.labels), trueLabel) && !has(old(p.labels), falseLabel) ==> ne(*p) && endJump(*p, trueLabel, falseLabel)
-//@   ensures @pend {C07} forallk(S, "(Array Int Bool)", pendIn(old(*p), S) && S[trueLabel] && S[falseLabel] ==> pendIn(*p, S))
-//@   ensures @pend2 {C07} forallk(S, "(Array Int Bool)", pendIn(old(*p), S) && S[trueLabel] ==> pendIn(*p, store(S, falseLabel, true)))
+//@   ensures @ne {C07!} riS(old(*p)) && ne(old(*p)) && !has(old(p.labels), trueLabel) && !has(old(p.labels), falseLabel) ==> ne(*p) && endJump(*p, trueLabel, falseLabel)
+//@   ensures @pend {C07!} forallk(S, "(Array Int Bool)", pendIn(old(*p), S) && S[trueLabel] && S[falseLabel] ==> pendIn(*p, S))
+//@   ensures @pend2 {C07!} forallk(S, "(Array Int Bool)", pendIn(old(*p), S) && S[trueLabel] ==> pendIn(*p, store(S, falseLabel, true)))
 
 //@ func (p *Program) SetLabel(label Label)   properties C01 C02 C03 C06
 //@   deterministic C13
@@ -128,9 +149,9 @@ package seccomp
 //@   use riLink(old(*p)) at exit
 //@   use riLink(*p) at exit
 //@   ensures @riS {C06} riS(old(*p)) && label <= old(p.nextLabel) ==> riS(*p)
-//@   ensures @ne {C07} riS(old(*p)) && ne(old(*p)) && !has(old(p.labels), label) && hopeKeep(old(*p), label) ==> ne(*p)
-//@   ensures @pend {C07} forallk(S, "(Array Int Bool)", pendIn(old(*p), S) ==> pendIn(*p, store(S, label, false)))
-//@   ensures @endframe {C07} (noJumpAtEnd(old(*p)) ==> noJumpAtEnd(*p)) && forallk(a, p.labels, forallk(b, p.labels, endJump(old(*p), a, b) ==> endJump(*p, a, b)))
+//@   ensures @ne {C07!} riS(old(*p)) && ne(old(*p)) && !has(old(p.labels), label) && hopeKeep(old(*p), label) ==> ne(*p)
+//@   ensures @pend {C07!} forallk(S, "(Array Int Bool)", pendIn(old(*p), S) ==> pendIn(*p, store(S, label, false)))
+//@   ensures @endframe {C07!} (noJumpAtEnd(old(*p)) ==> noJumpAtEnd(*p)) && forallk(a, p.labels, forallk(b, p.labels, endJump(old(*p), a, b) ==> endJump(*p, a, b)))
 
 //@ func (p *Program) JmpIfTrue(cond bpf.JumpTest, val uint32, trueLabel Label)   properties C01 C02 C03 C05 C06
 //@   deterministic C13
@@ -151,8 +172,8 @@ package seccomp
 //@   use hopeKeepEnd(*p, label, trueLabel, label) at before call Program.SetLabel#1
 //@   use pendExt(*p) at before call Program.JmpIf#1
 //@   use pendExt(*p) at exit
-//@   ensures @ne {C07} riS(old(*p)) && ne(old(*p)) && !has(old(p.labels), trueLabel) && trueLabel <= old(p.nextLabel) ==> ne(*p) && endJump(*p, trueLabel, old(p.nextLabel) + 1)
-//@   ensures @pend {C07} forallk(S, "(Array Int Bool)", pendIn(old(*p), S) && S[trueLabel] ==> pendIn(*p, S))
+//@   ensures @ne {C07!} riS(old(*p)) && ne(old(*p)) && !has(old(p.labels), trueLabel) && trueLabel <= old(p.nextLabel) ==> ne(*p) && endJump(*p, trueLabel, old(p.nextLabel) + 1)
+//@   ensures @pend {C07!} forallk(S, "(Array Int Bool)", pendIn(old(*p), S) && S[trueLabel] ==> pendIn(*p, S))
 
 //@ func (p *Program) Ret(action Action)   properties C01 C05 C06
 //@   deterministic C13
@@ -172,8 +193,8 @@ package seccomp
 //@   use riLink(old(*p)) at exit
 //@   use riLink(*p) at exit
 //@   ensures @riS {C06} riS(old(*p)) ==> riS(*p)
-//@   ensures @ne {C07} riS(old(*p)) && ne(old(*p)) ==> ne(*p) && noJumpAtEnd(*p)
-//@   ensures @pend {C07} forallk(S, "(Array Int Bool)", pendIn(old(*p), S) ==> pendIn(*p, S))
+//@   ensures @ne {C07!} riS(old(*p)) && ne(old(*p)) ==> ne(*p) && noJumpAtEnd(*p)
+//@   ensures @pend {C07!} forallk(S, "(Array Int Bool)", pendIn(old(*p), S) ==> pendIn(*p, S))
 
 //@ func (p *Program) LdHi(arg uint32)   properties C02 C05
 //@   deterministic C13
@@ -193,8 +214,8 @@ package seccomp
 //@   use riLink(old(*p)) at exit
 //@   use riLink(*p) at exit
 //@   ensures @riS {C06} riS(old(*p)) ==> riS(*p)
-//@   ensures @ne {C07} riS(old(*p)) && ne(old(*p)) ==> ne(*p) && noJumpAtEnd(*p)
-//@   ensures @pend {C07} forallk(S, "(Array Int Bool)", pendIn(old(*p), S) ==> pendIn(*p, S))
+//@   ensures @ne {C07!} riS(old(*p)) && ne(old(*p)) ==> ne(*p) && noJumpAtEnd(*p)
+//@   ensures @pend {C07!} forallk(S, "(Array Int Bool)", pendIn(old(*p), S) ==> pendIn(*p, S))
 
 //@ func (p *Program) ldSyscallNum()   properties C03 C05
 //@   deterministic C13
@@ -213,8 +234,8 @@ package seccomp
 //@   use riLink(old(*p)) at exit
 //@   use riLink(*p) at exit
 //@   ensures @riS {C06} riS(old(*p)) ==> riS(*p)
-//@   ensures @ne {C07} riS(old(*p)) && ne(old(*p)) ==> ne(*p) && noJumpAtEnd(*p)
-//@   ensures @pend {C07} forallk(S, "(Array Int Bool)", pendIn(old(*p), S) ==> pendIn(*p, S))
+//@   ensures @ne {C07!} riS(old(*p)) && ne(old(*p)) ==> ne(*p) && noJumpAtEnd(*p)
+//@   ensures @pend {C07!} forallk(S, "(Array Int Bool)", pendIn(old(*p), S) ==> pendIn(*p, S))
 
 //@ func (p *Program) LdLo(arg uint32)   properties C02 C05
 //@   deterministic C13
@@ -234,8 +255,8 @@ package seccomp
 //@   use riLink(old(*p)) at exit
 //@   use riLink(*p) at exit
 //@   ensures @riS {C06} riS(old(*p)) ==> riS(*p)
-//@   ensures @ne {C07} riS(old(*p)) && ne(old(*p)) ==> ne(*p) && noJumpAtEnd(*p)
-//@   ensures @pend {C07} forallk(S, "(Array Int Bool)", pendIn(old(*p), S) ==> pendIn(*p, S))
+//@   ensures @ne {C07!} riS(old(*p)) && ne(old(*p)) ==> ne(*p) && noJumpAtEnd(*p)
+//@   ensures @pend {C07!} forallk(S, "(Array Int Bool)", pendIn(old(*p), S) ==> pendIn(*p, S))
 
 // nativeEndian is assigned once by init() (not verified: unsafe); it is one of the two orders.
 //@ global nativeEndian immutable
@@ -302,6 +323,27 @@ package seccomp
 //@   ensures @phi {C06} P0 ==> phi(*p) && !has(p.labels, action)
 //@   let R0 = p.R
 //@   let ok0 = ok(p)
+// C07 (d): the structure that makes label resolution succeed is maintained (for entries with implemented operations
+// and non-empty lists); the labels still without a position are action / nextSyscall / noMatch / nextArgument
+//@   opaque fwdOK hopeOK pendIn endJump noJumpAtEnd hopeKeep endBelow
+//@   let NE0 = riS(*p) && ne(*p) && !has(p.labels, action) && pendIn(*p, ls1(action)) && eb(p)
+//@   ensures @ne {C07!} NE0 && sem ==> ne(*p) && !has(p.labels, action) && pendIn(*p, ls1(action)) && eb(p)
+//@   use endBelowJump(*p, action, p.nextLabel, p.nextLabel + 1) at after call Program.JmpIfTrue#1
+//@   use pendMono(*p, ls1(action), ls2(action, nextSyscall)) at before call Program.JmpIfTrue#2
+//@   use endBelowJump(*p, nextSyscall, p.nextLabel, p.nextLabel + 1) at after call Program.JmpIfTrue#2
+//@   use pendMono(*p, ls2(action, nextSyscall), ls3(action, nextSyscall, noMatch)) at before loop 2
+//@   use endBelowMono(*p, noMatch, p.nextLabel + 1) at before loop 2
+//@   use pendMono(*p, ls3(action, nextSyscall, noMatch), ls4(action, nextSyscall, noMatch, nextArgument)) at after assign nextArgument#1
+//@   use endBelowMono(*p, nextArgument, p.nextLabel + 1) at after assign nextArgument#1
+//@   use hopeKeepEnd(*p, nextArgument, match, noMatch) at before call Program.SetLabel#1
+//@   use endBelowJump(*p, match, noMatch, p.nextLabel + 1) at loop 2 end
+//@   use pendMono(*p, store(ls4(action, nextSyscall, noMatch, nextArgument), nextArgument, false), ls3(action, nextSyscall, noMatch)) at loop 2 end
+//@   use hopeKeepEnd(*p, noMatch, action, noMatch) at after loop 2
+//@   use endBelowJump(*p, action, noMatch, p.nextLabel + 1) at loop 1 end
+//@   use pendMono(*p, store(ls3(action, nextSyscall, noMatch), noMatch, false), ls2(action, nextSyscall)) at loop 1 end
+//@   use hopeKeepNoJump(*p, nextSyscall) at before call Program.SetLabel#3
+//@   use endBelowNone(*p, p.nextLabel + 1) at exit
+//@   use pendMono(*p, store(ls2(action, nextSyscall), nextSyscall, false), ls1(action)) at exit
 //@   use anyListZero(s) at before loop 1
 //@   use semInstList(s, k, conditions) at loop 1 body
 //@   use allHoldZero(conditions) at before loop 2
@@ -319,6 +361,7 @@ package seccomp
 //@     invariant @sem {C03} pre && sem ==> (g_taken(p.G)[action] == (g_taken(G0)[action] || (hdr && anyList(s, k))) && g_taken(p.G)[nextSyscall] == !hdr && g_live(p.G) == (hdr && !anyList(s, k)))
 //@     invariant @dead !g_live(G0) ==> !g_live(p.G) && g_taken(p.G)[action] == g_taken(G0)[action] && !g_taken(p.G)[nextSyscall]
 //@     invariant @next_A {C03} pre && g_taken(p.G)[nextSyscall] ==> g_tA(p.G)[nextSyscall] == ev_nr(ev)
+//@     invariant @ne {C07!} NE0 && sem ==> ne(*p) && !has(p.labels, action) && !has(p.labels, nextSyscall) && pendIn(*p, ls2(action, nextSyscall)) && eb(p)
 //@   loop 2 binder i match range conditions
 //@     invariant @struct p != nil && nonnil(p.labels) && p.nextLabel >= noMatch && noMatch >= N0 + 3
 //@     invariant @ok {C05} p.R == R0 && (ok0 ==> ok(p))
@@ -332,6 +375,10 @@ package seccomp
 //@     invariant @next pre && sem ==> g_taken(p.G)[nextSyscall] == !hdr
 //@     invariant @next_A {C03} pre && g_taken(p.G)[nextSyscall] ==> g_tA(p.G)[nextSyscall] == ev_nr(ev)
 //@     invariant @dead !g_live(G0) ==> !g_live(p.G) && g_taken(p.G)[action] == g_taken(G0)[action] && !g_taken(p.G)[nextSyscall] && !g_taken(p.G)[noMatch]
+//@     invariant @ne {C07!} NE0 && sem ==> ne(*p) && !has(p.labels, action) && !has(p.labels, nextSyscall) && !has(p.labels, noMatch)
+//@     invariant @ne_pend {C07!} NE0 && sem ==> pendIn(*p, ls3(action, nextSyscall, noMatch))
+//@     invariant @ne_eb {C07!} NE0 && sem ==> eb(p)
+//@     invariant @ne_end {C07!} NE0 && sem ==> (i == 0 ==> endBelow(p.instructions, p.jumps, noMatch)) && (i >= 1 && i == len(conditions) ==> endJump(*p, action, noMatch))
 
 // ---- names -> numbers, validation (C01 C03 C07) ----
 
@@ -396,6 +443,13 @@ package seccomp
 //@ macro entriesListsNonEmpty(sc) = forall(e_, 0, len(sc), entryListsNonEmpty(sc[e_]))
 //@ macro nwcNonEmptyUpTo(g, k) = forall(i_, 0, k, len(g.NamesWithCondtions[i_].Conditions) >= 1)
 
+// C07 (d): instance of infoInj at the names of the group
+//@ lemma infoInjNames(g *SyscallGroup, k int, name string)
+//@   requires g != nil && g.arch != nil
+//@   ensures infoInj(*g.arch) && known(g, name) ==> forall(i_, 0, k, known(g, g.Names[i_]) && num32(g, g.Names[i_]) == num32(g, name) ==> g.Names[i_] == name, trig(g.Names[i_]))
+//@ macro entriesFromNames(g, sc, k) = entriesFromNamesS(*g.arch, g.Names, sc, k)
+//@ macro uncondFromNames(g, sc) = uncondFromNamesS(*g.arch, g.Names, sc)
+//@ macro groupValidM(g) = namesKnownUpTo(g, len(g.Names)) && namesDistinctUpTo(g, len(g.Names)) && nwcOKUpTo(g, len(g.NamesWithCondtions))
 //@ func (g *SyscallGroup) toSyscallsWithConditions() ([]SyscallWithConditions, error)   properties C01 C03 C05 C07
 //@   deterministic C13
 //@   frame_props C13
@@ -408,6 +462,11 @@ package seccomp
 //@   ensures @c07_nwc {C07} result1 == nil ==> nwcOKUpTo(g, len(g.NamesWithCondtions))
 //@   ensures @entries_ok {C05 C07} result1 == nil ==> entriesOK(result0)
 //@   ensures @lists_nonempty {C03} result1 == nil && nwcNonEmptyUpTo(g, len(g.NamesWithCondtions)) ==> entriesListsNonEmpty(result0)
+//@   ensures @accepted {C07!} groupValidM(g) && infoInj(*g.arch) ==> result1 == nil
+//@   opaque infoInj
+//@   opaque entriesFromNamesS uncondFromNamesS except from_names uncond_from_names noprob
+//@   use infoInjNames(g, k1, name) at loop 1 body
+//@   use infoInjNames(g, len(g.Names), nc.Name) at loop 2 body
 //@   use namesZero(g) at entry
 //@   use anyEntryZero(syscalls) at before loop 1
 //@   use namesStep(g, k1, name) at loop 1 body
@@ -424,6 +483,8 @@ package seccomp
 //@     invariant @repr {C07} len(problems) == 0 ==> namesReprUpTo(g, syscalls, k1)
 //@     invariant @dups {C07} len(problems) == 0 ==> namesDistinctUpTo(g, k1)
 //@     invariant @nums {C07} numsDistinct(syscalls)
+//@     invariant @from_names {C07!} entriesFromNames(g, syscalls, k1)
+//@     invariant @noprob {C07!} groupValidM(g) && infoInj(*g.arch) ==> len(problems) == 0
 //@   loop 2 binder k2 match range g.NamesWithCondtions
 //@     invariant @own own(syscalls) && own(problems) && forall(j, 0, len(syscalls), own(syscalls[j].Conditions))
 //@     invariant @sem {C01 C03} len(problems) == 0 ==> anyEntry(syscalls, len(syscalls)) == (namesMatchUpTo(g, len(g.Names)) || nwcMatchUpTo(g, k2))
@@ -433,6 +494,8 @@ package seccomp
 //@     invariant @nwc {C07} len(problems) == 0 ==> nwcOKUpTo(g, k2)
 //@     invariant @entries_ok {C05 C07} entriesOK(syscalls)
 //@     invariant @lists_nonempty {C03} nwcNonEmptyUpTo(g, k2) ==> entriesListsNonEmpty(syscalls)
+//@     invariant @uncond_from_names {C07!} uncondFromNames(g, syscalls)
+//@     invariant @noprob {C07!} groupValidM(g) && infoInj(*g.arch) ==> len(problems) == 0
 
 // ---- group and policy assembly (C01 C03 C04 C05 C07) ----
 
@@ -724,12 +787,12 @@ package seccomp
 //@   ensures @lab result1 == nil ==> run(result0, 0, A0) == runL(old(*p), 0, A0)
 //@   ensures @sem result1 == nil && phi(old(*p)) ==> run(result0, 0, A0) == outG(old(p.G))
 //@   let NE0 = ne(*p) && pendIn(*p, emptyLabels)
-//@   ensures @noerr {C07} NE0 ==> result1 == nil
+//@   ensures @noerr {C07!} NE0 ==> result1 == nil
 //@   ensures @closed result1 == nil && ok(old(p)) ==> closed(result0) && retsInSet(result0, old(p.R))
 //@   ensures @len result1 == nil ==> len(result0) >= len(old(p.instructions))
 //@   opaque posMono jumpsComplete runL3 runP3
 //@   opaque closed retsInSet except closed
-//@   opaque fwdOK hopeOK pendIn except noerr ne_dest ne_curT ne_curF
+//@   opaque fwdOK hopeOK pendIn except ne_dest ne_curT ne_curF
 //@   ghost ghost.apos = idArr at entry
 //@   use monoId() at entry
 //@   use monoPivot(old(p.jumps)[i].index) at loop 1 body
@@ -737,11 +800,14 @@ package seccomp
 //@   use monoPivot(old(p.jumps)[i].index + 1) at loop 1 body
 //@   use fiaRange(old(p.labels)[old(p.jumps)[i].trueLabel], old(p.jumps)[i].index, 0) at loop 1 body
 //@   use fiaRange(old(p.labels)[old(p.jumps)[i].falseLabel], old(p.jumps)[i].index, 0) at loop 1 body
-//@   assert @ne_dest {C07} NE0 ==> destOf(old(p.labels), old(p.jumps)[i].trueLabel, old(p.jumps)[i].index) > old(p.jumps)[i].index && destOf(old(p.labels), old(p.jumps)[i].falseLabel, old(p.jumps)[i].index) > old(p.jumps)[i].index && (destOf(old(p.labels), old(p.jumps)[i].trueLabel, old(p.jumps)[i].index) >= old(p.jumps)[i].index + 2 || destOf(old(p.labels), old(p.jumps)[i].falseLabel, old(p.jumps)[i].index) >= old(p.jumps)[i].index + 2) at loop 1 body
-//@   assert @ne_curT {C07} NE0 ==> 0 <= firstIdxAbove(old(p.labels)[old(p.jumps)[i].trueLabel], old(p.jumps)[i].index, 0) && firstIdxAbove(old(p.labels)[old(p.jumps)[i].trueLabel], old(p.jumps)[i].index, 0) < len(p.labels[p.jumps[i].trueLabel]) && p.labels[p.jumps[i].trueLabel][firstIdxAbove(old(p.labels)[old(p.jumps)[i].trueLabel], old(p.jumps)[i].index, 0)] > p.jumps[i].index at loop 1 body
-//@   assert @ne_curF {C07} NE0 ==> 0 <= firstIdxAbove(old(p.labels)[old(p.jumps)[i].falseLabel], old(p.jumps)[i].index, 0) && firstIdxAbove(old(p.labels)[old(p.jumps)[i].falseLabel], old(p.jumps)[i].index, 0) < len(p.labels[p.jumps[i].falseLabel]) && p.labels[p.jumps[i].falseLabel][firstIdxAbove(old(p.labels)[old(p.jumps)[i].falseLabel], old(p.jumps)[i].index, 0)] > p.jumps[i].index at loop 1 body
+//@   assert @ne_dest {C07!} NE0 ==> destOf(old(p.labels), old(p.jumps)[i].trueLabel, old(p.jumps)[i].index) > old(p.jumps)[i].index && destOf(old(p.labels), old(p.jumps)[i].falseLabel, old(p.jumps)[i].index) > old(p.jumps)[i].index && (destOf(old(p.labels), old(p.jumps)[i].trueLabel, old(p.jumps)[i].index) >= old(p.jumps)[i].index + 2 || destOf(old(p.labels), old(p.jumps)[i].falseLabel, old(p.jumps)[i].index) >= old(p.jumps)[i].index + 2) at loop 1 body
+//@   assert @ne_curT {C07!} NE0 ==> 0 <= firstIdxAbove(old(p.labels)[old(p.jumps)[i].trueLabel], old(p.jumps)[i].index, 0) && firstIdxAbove(old(p.labels)[old(p.jumps)[i].trueLabel], old(p.jumps)[i].index, 0) < len(p.labels[p.jumps[i].trueLabel]) && p.labels[p.jumps[i].trueLabel][firstIdxAbove(old(p.labels)[old(p.jumps)[i].trueLabel], old(p.jumps)[i].index, 0)] > p.jumps[i].index at loop 1 body
+//@   assert @ne_curF {C07!} NE0 ==> 0 <= firstIdxAbove(old(p.labels)[old(p.jumps)[i].falseLabel], old(p.jumps)[i].index, 0) && firstIdxAbove(old(p.labels)[old(p.jumps)[i].falseLabel], old(p.jumps)[i].index, 0) < len(p.labels[p.jumps[i].falseLabel]) && p.labels[p.jumps[i].falseLabel][firstIdxAbove(old(p.labels)[old(p.jumps)[i].falseLabel], old(p.jumps)[i].index, 0)] > p.jumps[i].index at loop 1 body
 //@   use fiaAt(old(p.labels)[old(p.jumps)[i].trueLabel], old(p.jumps)[i].index, 0, ghost.mt[i]) when isFirstAbove(old(p.labels)[old(p.jumps)[i].trueLabel], old(p.jumps)[i].index, ghost.mt[i]) at after assign longFalse#1
 //@   use fiaAt(old(p.labels)[old(p.jumps)[i].falseLabel], old(p.jumps)[i].index, 0, ghost.mf[i]) when isFirstAbove(old(p.labels)[old(p.jumps)[i].falseLabel], old(p.jumps)[i].index, ghost.mf[i]) at after assign longFalse#1
+//@   assert @ne_mt {C07!} NE0 ==> ghost.mt[i] == firstIdxAbove(old(p.labels)[old(p.jumps)[i].trueLabel], old(p.jumps)[i].index, 0) at after assign longFalse#1
+//@   assert @ne_mf {C07!} NE0 ==> ghost.mf[i] == firstIdxAbove(old(p.labels)[old(p.jumps)[i].falseLabel], old(p.jumps)[i].index, 0) at after assign longFalse#1
+//@   assert @ne_skips {C07!} NE0 ==> skipTrue >= 1 || skipFalse >= 1 at after assign longFalse#1
 //@   use monoShift(jump.index + 1) at before call Program.insertBridge#1
 //@   use monoShift(jump.index + 1) at before call Program.insertBridge#2
 //@   use monoShift(jump.index + 1) at before call Program.insertBridge#3
@@ -831,6 +897,19 @@ package seccomp
 //@   ensures @closed {C05} result1 == nil ==> closed(result0)
 //@   ensures @rets {C05} result1 == nil ==> retsInSet(result0, addRet(addRet(emptyRets, enc(g.Action)), ite(fallThrough, enc(g.Action), enc(defaultAction))))
 //@   ensures @c07_names {C07} result1 == nil && !empty ==> groupValidF(*g.arch, *g)
+// C07 (d): a group free of the listed defects, whose conditional entries carry at least one condition, is accepted
+// (infoInj: distinct names of the architecture have distinct numbers - a ground obligation for the five real tables)
+//@   ensures @accepted {C07!} groupValidF(*g.arch, *g) && groupListsNonEmpty(*g) && infoInj(*g.arch) ==> result1 == nil
+//@   opaque fwdOK hopeOK pendIn endJump noJumpAtEnd hopeKeep endBelow infoInj
+//@   use neEmpty(p, ls1(action)) at after assign action#1
+//@   use endBelowNone(p, p.nextLabel + 1) at after assign action#1
+//@   use endBelowMono(p, next, next + 1) at after assign next#1
+//@   use pendMono(p, ls1(action), ls2(action, next)) at after assign next#1
+//@   use hopeKeepEnd(p, action, next, next) at before call Program.SetLabel#1
+//@   use hopeKeepNoJump(p, next) at before call Program.SetLabel#2
+//@   use pendMono(p, store(store(ls2(action, next), action, false), next, false), emptyLabels) at before call Program.Assemble#1
+//@   use hopeKeepNoJump(p, action) at before call Program.SetLabel#3
+//@   use pendMono(p, store(ls1(action), action, false), emptyLabels) at before call Program.Assemble#2
 //@   use groupValidLink(g) at entry
 //@   ghost p.G = Ginit(A0) at before call Program.NewLabel#1
 //@   ghost p.R = emptyRets at before call Program.NewLabel#1
@@ -844,6 +923,7 @@ package seccomp
 //@     invariant @ok {C05} p.R == emptyRets && ok(p)
 //@     invariant @ri {C06} riS(p) && phi(p) && !has(p.labels, action)
 //@     invariant @sem {C01 C03} A0 == ev_nr(ev) && entriesListsNonEmpty(syscalls) ==> g_live(p.G) == !anyEntry(syscalls, k) && (g_live(p.G) ==> g_A(p.G) == ev_nr(ev)) && g_taken(p.G)[action] == anyEntry(syscalls, k)
+//@     invariant @ne {C07!} entriesListsNonEmpty(syscalls) ==> ne(p) && pendIn(p, ls1(action)) && eb(p)
 
 //@ lemma groupValidLink(g *SyscallGroup)
 //@   requires g != nil && g.arch != nil
@@ -905,7 +985,7 @@ package seccomp
 //@ func (p *Policy) Assemble() ([]bpf.Instruction, error)   properties C01 C03 C04 C05 C07 C13
 //@   deterministic C13
 //@   frame_props C13
-//@   opaque groupValidN polDone polRel groupMatchesN closed strictClosed subBlock retsActUpTo run
+//@   opaque groupValidN polDone polRel groupMatchesN closed strictClosed subBlock retsActUpTo run infoInj
 //@   requires p != nil
 //@   requires @api_groups forall(i, 0, len(p.Syscalls), p.Syscalls[i].arch == nil)
 //@   modifies p
@@ -918,6 +998,9 @@ package seccomp
 //@   ensures @decision {C01 C03 C04} result1 == nil && policyListsNonEmpty(gs) && len(result0) < 4294967296 ==> decisionRel(*p.arch, dflt, gs, run(result0, 0, Astart))
 //@   ensures @c07_action {C07} result1 == nil ==> knownAction(dflt) && len(gs) > 0 && p.arch != nil
 //@   ensures @c07_groups {C07} result1 == nil ==> forall(i, 0, len(gs), groupValidF(*p.arch, gs[i]))
+// C07 (d): every policy free of the listed defects whose conditional entries carry at least one condition is accepted
+// (architecture given; infoInj holds for the five real tables: ground obligations arch.*#ground.inj32)
+//@   ensures @accepted {C07!} old(p.arch) != nil && knownAction(dflt) && len(gs) > 0 && forall(i, 0, len(gs), groupValidF(*old(p.arch), gs[i])) && policyListsNonEmpty(gs) && infoInj(*old(p.arch)) ==> result1 == nil
 //@   ensures @closed {C05} result1 == nil ==> closed(result0) && len(result0) >= 4
 //@   ensures @kernel {C05} result1 == nil && len(result0) <= 4096 ==> kernelAccepts(result0)
 //@   use emptyBlock(instructions, gs) at before loop 1
